@@ -43,8 +43,8 @@ def scenarios(rep, tier, seed):
         scn["prepredict"] = i % 3 == 1
         scns.append(scn)
     # "all metrics": non-symmetric identifiers too (training evaluates d(sample, neighbour), prediction d(query, sample))
-    for i in range(200 if thorough else 40):
-        scn = K.random_scenario(rng, "unsup" if i % 2 else "knn", metric=["pearson", "neyman", "kullback_leibler", "k_divergence"][i % 4], nq=rng.randrange(4, 10), positive=True, mode="metric")
+    for i in range(400 if thorough else 100):
+        scn = K.random_scenario(rng, "unsup" if i % 2 else "knn", metric=["pearson", "neyman", "pearson", "neyman", "kullback_leibler", "k_divergence"][i % 6], nq=rng.randrange(10, 18), positive=True, mode="metric")
         scn["allow_asymmetric"] = True
         scns.append(scn)
     # the fitted model predicts after save -> load into an object built with another metric
